@@ -48,7 +48,7 @@ CHECKS = {
             "Preemption bound 1; quick: call granularity + line granularity at profiled write points of module-level state, thorough: every line point for two pairs; hash seeds are an enumerated list; reference table from one fresh interpreter per pool entry; every case runs in a forked child of a worker that imported the library but never parsed (no carry-over between cases); directed three-party histories (open stream, finished call, another finished call, drain) beyond the depth bound; bounds as reported in the evidence."),
     "C13": (FE, "4.C13", "exhaustive expiry-point enumeration with a virtual clock",
             "The deadline is placed between every two consecutive clock events of a run (virtual perf_counter; three clock models: reads only, reads+scorer/rule ticks, and ticks with the shipped scorer object passed as is and rows counted at the model); prefix property, no-raise, best-of-prefix and bounded post-deadline work (<=2 initial scorings, <=1 partial parse touched) are checked at every expiry point.",
-            "Time only advances at clock reads; inputs are a fixed family incl. n repeated ambiguous tokens; combinations with more than 800 (quick) / 6000 (thorough) expiry points are listed in the evidence and not explored; rule-applicability analyses counted at PartialParse._filter_rules; an unlimited stream interleaved with timed parses must stay complete."),
+            "Time only advances at clock reads; inputs are a fixed family incl. n repeated ambiguous tokens; combinations with more than 800 (quick) / 6000 (thorough) expiry points are listed in the evidence and not explored; rule-applicability analyses counted at PartialParse._filter_rules; an unlimited stream interleaved with timed parses must stay complete; one wide-stack input (729 candidate sequences, clock model reads) is explored at every expiry point of the initial-stack phases in quick and completely in thorough, independent of the 800 cap."),
     "C14": (EXPL, "4.C14", "bounded-exhaustive comparison of ctparse() with list(ctparse_gen()) over texts x option vectors",
             "The single-result call must equal a maximal-score element of the stream for every enumerated text and option vector.",
             "Text space bounded as in C01; Random scorer seeded identically for both entry points."),
@@ -62,8 +62,8 @@ CHECKS = {
             "The harness rebuilds the expected sample list from ctparse_gen itself and compares element-wise; duplication monotonicity is checked on every small-scope training set.",
             "Labels compared by observation tuples (not by the classes' own equality)."),
     "C18": (EXPL, "4.C18", "exhaustive all-pairs enumeration over boundary value sets of Time/Interval/Duration",
-            "== / hash / nb_str / parse_nb_string are compared with tuple semantics on all pairs.",
-            "Field domains are boundary sets plus full single-field sweeps."),
+            "== / hash / nb_str / parse_nb_string are compared with tuple semantics on all pairs; depth-2 operation sequences (hash/==, then assignment of one field) are compared with freshly built twins.",
+            "Field domains are boundary sets plus full single-field sweeps; assignment sequences on the first 400 objects per kind in quick, all in thorough, three donor objects each."),
     "C19": (MC, "4.C19", "AST/registry enumeration + probe-string enumeration + explicit-state BFS of part-of-day modifier chains on the real rule",
             "Registry vs syntax tree, all patterns x all probe strings, the POD-chain state space to a fixpoint/depth bound, and the model vocabulary are enumerated completely.",
             "Probe strings bounded to length 3 over class representatives; id shifts inside the id range are invisible to the vocabulary check."),
